@@ -355,6 +355,25 @@ impl UnitRunner for C01 {
           else { out.fail(format!("C01|operand-form-differs|{}:{}:{}", op, form, if ls == (0, 0) && rs == (0, 0) { "scalars" } else if ls == (0, 0) || rs == (0, 0) { "scalar-matrix" } else { "matrices" }), format!("{}; {}; r := {}", da, db, expr), format!("with variables {}, in this spelling {}", o.short(), of.short())); }
         }
       }
+      // the same variable on both sides: every element against the scalar result of (x, x)
+      if ri == li {
+        out.evaluations += 1;
+        let oa = s.run(&format!("sv{} := a {} a", n, op));
+        let (er, ec) = if ls == (0, 0) { (1, 1) } else { ls };
+        let mut exp: Vec<Outcome> = vec![];
+        for i in 0..er { for j in 0..ec { let l = pick(&lv, ls, ls, i, j); self.scalar_pair(kind, &l, &l, out); exp.push(self.scalar[&(kind.to_string(), op.to_string(), l.clone(), l)].clone()); } }
+        let case_a = format!("{}; r := a {} a", da, op);
+        match &oa {
+          Outcome::Value(c) => {
+            out.nontrivial += 1;
+            let got: Vec<Canon> = match c.as_matrix() { Some((_, _, e)) => e.clone(), None => vec![c.clone()] };
+            for (k, e) in exp.iter().enumerate() { if let Outcome::Value(ev) = e { if got.get(k) != Some(ev) { out.fail(format!("C01|wrong-element|same-variable:{}", op), case_a.clone(), format!("element {} should be the scalar result {}, got {}", k, ev.short(), c.short())); break; } } }
+          }
+          Outcome::Error(e) => { if exp.iter().all(|x| x.is_value()) { out.fail(format!("C01|compatible-rejected|same-variable:{}", op), case_a, format!("every element pair is accepted as scalars, but a {} a gives Err({})", op, e)); } }
+          Outcome::Panic(m) => out.fail(format!("C01|panic|same-variable:{}", op), case_a, m.clone()),
+          _ => {}
+        }
+      }
       if unit % 97 == 0 && n == 0 { out.sample(json!({"program": case, "observed": o.short(), "arm": arm})); }
     }
     // unary operators (once per lhs shape: only when the rhs shape index is 0)
